@@ -9,6 +9,50 @@ pub fn write_config(workdir: &str, name: &str, body: &str) -> std::path::PathBuf
     p
 }
 
+static PROBLEMS: std::sync::Mutex<Vec<String>> = std::sync::Mutex::new(Vec::new());
+static DEAD: std::sync::atomic::AtomicBool = std::sync::atomic::AtomicBool::new(false);
+
+/// panics on engine threads / spawned tasks (tokio swallows them) are recorded: a case during which one
+/// happened prints a `PANIC` line, a case whose work never drains prints a `HUNG` line
+pub fn install_panic_hook() {
+    let prev = std::panic::take_hook();
+    std::panic::set_hook(Box::new(move |info| {
+        let loc = info.location().map(|l| format!("{}:{}", l.file().rsplit("/src/").next().unwrap_or(""), l.line())).unwrap_or_default();
+        let msg = info.payload().downcast_ref::<String>().cloned().or_else(|| info.payload().downcast_ref::<&str>().map(|s| s.to_string())).unwrap_or_default();
+        let msg: String = msg.lines().next().unwrap_or("").chars().take(160).collect();
+        PROBLEMS.lock().unwrap().push(format!("PANIC {loc} {msg}"));
+        DEAD.store(true, std::sync::atomic::Ordering::SeqCst);
+        prev(info);
+    }));
+}
+
+/// problems since the last call; resets the in-flight counter when work was lost (so that the next case of
+/// the shard starts from zero again)
+pub fn take_problems() -> Vec<String> {
+    let v = std::mem::take(&mut *PROBLEMS.lock().unwrap());
+    DEAD.store(false, std::sync::atomic::Ordering::SeqCst);
+    v
+}
+
+/// after lost work: the counter restarts from zero for the next case of the shard
+pub fn force_idle() {
+    while acts::verif::inflight() > 0 {
+        acts::verif::dec();
+    }
+    while acts::verif::inflight() < 0 {
+        acts::verif::inc();
+    }
+}
+
+pub fn emit_problems(w: &mut impl Write, tag: &str) {
+    let mut seen = std::collections::BTreeSet::new();
+    for p in take_problems() {
+        if seen.insert(p.clone()) {
+            writeln!(w, "case {tag}: {p}").unwrap();
+        }
+    }
+}
+
 /// wait until nothing is in flight (queued signals, spawned dispatches, launches)
 pub async fn quiesce() {
     let mut zero = 0;
@@ -27,8 +71,15 @@ pub async fn quiesce() {
         if spins % 64 == 0 {
             tokio::time::sleep(std::time::Duration::from_micros(50)).await;
         }
-        if spins > 4_000_000 {
+        // after a panic on an engine task the lost unit of work never finishes: do not wait long for it
+        let limit = if DEAD.load(std::sync::atomic::Ordering::SeqCst) { 20_000 } else { 4_000_000 };
+        if spins > limit {
             eprintln!("quiesce: giving up, inflight={}", acts::verif::inflight());
+            let mut pr = PROBLEMS.lock().unwrap();
+            if !pr.iter().any(|p| p.starts_with("HUNG")) {
+                pr.push("HUNG work in flight never drained".to_string());
+            }
+            DEAD.store(true, std::sync::atomic::Ordering::SeqCst);
             break;
         }
     }
